@@ -11,7 +11,16 @@ linked into harness/cpp/c05_flatidx.cpp, exhaustively on all shapes of 1-3 dimen
 all index tuples in [-2, extent+2] plus indices around +-2^31 / +-2^32 / +-2^63 (through Variable::index_to_int); (2) generated Cb programs through
 `main` for every access path (local / global / parameter array, struct member array, &a[i], p+-k, p++/p--,
 p[k], *p, *(p+k), `checked`/`try`) x read/write, compared with the model's run of the same operation list
-and with a Python shadow array keyed by index tuples (the property's own reading).
+and with a Python shadow array keyed by index tuples (the property's own reading); (3) Variable::calculate_flat_index itself is
+re-translated from clang's AST of its current C++ text into coq/C05/Gen_FlatIndex.v on every run (translators/cxx_pure.py, for loop
+over two std::vectors in the C++17 semantics of coq/Cxx/Cxx.v), and so are the copies of that loop that bypass it: the five
+`array_dimensions` branches of ArrayManager::get/setMultidimensional*ArrayElement*, the struct-member read path
+StructOperations::get_struct_member_multidim_array_element and the float/double read path of the typed evaluator (each cut out of
+its function; the last one has no per-dimension test: proved refuted, known finding); coq/C05/Properties_C05_cxx.v proves -
+by induction over the loop, for all extents >= 1 whose product fits an int (size_t for the read branch) and all int indices of any
+number - that each generated function returns / throws exactly what the model calc_flat says and never reaches undefined behaviour;
+when that breaks, harness/flatgen_tie.py searches a
+concrete failing (extents, indices) by evaluating the generated function in Coq and replays it on the leaf driver.
 """
 import itertools
 import json
@@ -19,6 +28,7 @@ import os
 import re
 
 import common
+import flatgen_tie
 from common import rng_for
 
 PROP = "C05"
@@ -26,8 +36,9 @@ LEVEL = "proof"
 META = {
     "category": "proof",
     "technique": "Coq proofs (row-major bijection, per-site accept-iff-in-range for all integer indices, invariant + refinement of an "
-                 "array/pointer machine to a tuple-keyed shadow array over all operation sequences) + extracted-model differential run "
-                 "against Variable::index_to_int/calculate_flat_index (leaf, exhaustive) and against main (generated programs)",
+                 "array/pointer machine to a tuple-keyed shadow array over all operation sequences) + Variable::calculate_flat_index "
+                 "regenerated from clang's AST on every run and proved equal to the model (loop induction, UB-freedom) + extracted-model "
+                 "differential run against Variable::index_to_int/calculate_flat_index (leaf, exhaustive) and against main (generated programs)",
     "text": "Machine-checked theorems about a site-by-site Gallina model of the interpreter's array index checks (mirroring /repo at the "
             "fixes ff8053c, 2bd3a28, f8c96b6, 4d44dbb, 3ecd7bc): calculate_flat_index accepts exactly the tuples with every index inside its dimension and is a "
             "bijection between those tuples and the flat buffer (row-major); every access site (local/global/parameter array, struct "
@@ -39,10 +50,20 @@ META = {
             "refuted on the model with a witness and replayed on the real binary as a known finding (array_get/array_set know no extent). The model is tied to the code on every run: exhaustive "
             "small scopes against the repository's own index_to_int + calculate_flat_index and against main through every access path, "
             "indices around +-2^31/2^32/2^63 and pointer offsets around 2^59/2^61 at every site, plus random access sequences against "
-            "a shadow array.",
+            "a shadow array. For Variable::calculate_flat_index the tie is a proof: its C++ text is re-translated on every run (clang AST -> "
+            "Gallina term of the C++17 fragment coq/Cxx/Cxx.v: std::vector reads, for loop run with fuel, int arithmetic with overflow = "
+            "undefined behaviour) and Properties_C05_cxx.v shows for all extents >= 1 with product <= INT_MAX, any rank <= INT_MAX and all "
+            "int index vectors that the generated function equals the model (value, which exception), never reaches undefined behaviour or "
+            "runs out of fuel rank + 1, hence is the row-major bijection; a witness shows the overflow when the product exceeds INT_MAX. "
+            "The same for the copies of the loop that bypass calculate_flat_index: ArrayManager's five array_dimensions branches "
+            "(getMultidimensionalArrayElementTyped in size_t, setMultidimensionalArrayElement int64/double, "
+            "get/setMultidimensionalStringArrayElement in int) and StructOperations::get_struct_member_multidim_array_element (int64 "
+            "subscripts, size_t, dimension named in the message); the float/double/quad read path of the typed evaluator is generated too "
+            "and proved NOT to test the indices per dimension (known finding, replayed on the binary).",
     "note": "Trusted: Coq kernel (vm_compute only for witnesses and examples), no axioms (Print Assumptions: closed; coqchk in the thorough "
             "tier); extraction via ExtrOcamlBasic+ExtrOcamlString, Z kept inductive; the model is hand-written and tied by differential "
-            "testing, not by a proof about the C++. Hypotheses left in the theorems: declared extents fit an int (dims_fit), size < 2^31, "
+            "testing, not by a proof about the C++ - except calculate_flat_index and the seven copies of its loop, whose terms are generated (trusted there: clang 14's AST dump, "
+            "translators/cxx_pure.py, the C++17 reading coq/Cxx/Cxx.v). Hypotheses left in the theorems: declared extents fit an int (dims_fit), size < 2^31, "
             "the buffer does not wrap the address space. Not modelled: the flattened-struct synchronisation, pointers into struct member arrays and into parameter arrays (aliasing, C07), element types other than "
             "int, string/char indexing, dynamic arrays, int64 overflow of element_index + k.",
 }
@@ -680,9 +701,51 @@ def leaf_spec(line):
 # ================================================================== main
 def run(rep):
     seed, tier = rep.seed, rep.tier
+    # Variable::calculate_flat_index: re-translate its current C++ text (coq/C05/Gen_FlatIndex.v), then re-check every obligation
+    gen = flatgen_tie.regenerate(rep)
     cq = common.coq_check_props(PROP)
     common.proof_coverage(rep, cq)
-    if not cq["ok"]:
+    rep.coverage["trusted_base"] = rep.coverage.get("trusted_base", []) + [
+        "generated calculate_flat_index: clang 14 AST dump (-ast-dump=json), translators/cxx_pure.py, coq/Cxx/Cxx.v (C++17 integer / "
+        "std::vector-read / loop semantics)"]
+    lines, origin, n_exh = leaf_lines(tier, seed)
+    # translator failed / an obligation about a generated function broke: search a concrete failing (extents, indices)
+    handled = False
+    if gen[1] == "failed" or not cq["ok"]:
+        impl0 = common.build_impl("plain")
+
+        def program_replay(copy, dims, idxs):
+            """A deviation of one of ArrayManager's branches as an element access through main: the first (location, access) on
+            which the binary violates the property's own reading (shadow array)."""
+            for rw in {"get_typed": ("R",), "set_int": ("W", "R"), "member_read": ("R",)}.get(copy, ()):
+                for loc in ("mglobal", "global", "mlocal", "local", "param"):
+                    c = single_case(loc, dims, idxs, rw)
+                    if trips_known(c):
+                        continue
+                    rn = run_case(impl0, c)
+                    if not agree(spec_view(observed(c, rn)), spec_prediction(c)):
+                        sr, sc = spec_run(c)
+                        return dict(c, kind="prog", program=gen_program(c), impl=rn, spec=[sr, sc])
+            return None
+
+        def program_sweep():
+            """No model to point at an input: every element read and write around small 2-D / 3-D global and struct-member arrays."""
+            cands = []
+            for dims in ([2, 2], [2, 3], [3, 2], [2, 1, 2]):
+                for t in tuples_around(dims, -1, 1):
+                    for loc in ("global", "mglobal"):
+                        for rw in ("R", "W"):
+                            c = single_case(loc, dims, t, rw)
+                            if not trips_known(c):
+                                cands.append(c)
+            runs = common.pmap(lambda c: run_case(impl0, c), cands)
+            for c, rn in zip(cands, runs):
+                if not agree(spec_view(observed(c, rn)), spec_prediction(c)):
+                    sr, sc = spec_run(c)
+                    return dict(c, kind="prog", program=gen_program(c), impl=rn, spec=[sr, sc])
+            return None
+        handled = flatgen_tie.after_check(rep, gen, cq, lines[:n_exh], program_replay, program_sweep)
+    if not cq["ok"] and not handled:
         rep.violation("proof", {"theorem": cq["failed_theorem"], "log": cq["log"][-3000:]},
                       "proof obligation %s no longer checks" % cq["failed_theorem"], True)
     if tier == "thorough" and cq["ok"]:
@@ -702,7 +765,6 @@ def run(rep):
         hist[k] = hist.get(k, 0) + n
 
     # ---------------------------------------------------------------- (1) leaf: calculate_flat_index
-    lines, origin, n_exh = leaf_lines(tier, seed)
     data = ("\n".join(lines) + "\n").encode()
     rc, mo, me = common.sh([common.model_bin(PROP), "x"], input=data, timeout=900)
     rc2, io, ie = common.sh([leaf], input=data, timeout=900)
@@ -907,7 +969,8 @@ def run(rep):
         "disagreements": len(leaf_bad) + mat_bad + len(bad1) + len(bad2) + len(bad3) + len(bad4),
     })
     rep.assumptions += [
-        "the Gallina model is hand-written from the named C++ sites and tied to them by differential runs, not by proof",
+        "the Gallina model is hand-written from the named C++ sites and tied to them by differential runs, not by proof (except "
+        "Variable::calculate_flat_index: generated from clang's AST and proved equal to the model under extents >= 1, product and rank <= INT_MAX)",
         "element type int only; array extents 1..5 (leaf also up to 9); values within int range",
         "program-level runs observe stdout, exit status and the class of the first stderr error line only",
         "pointers are exercised on local and global named arrays only (pointer/parameter and pointer/struct-member aliasing belongs to C07)",
@@ -984,12 +1047,17 @@ def replay(path):
     data = json.load(open(path))
     c = data["case"]
     common.ensure_model(PROP)
-    if c.get("kind") == "leaf":
+    if c.get("kind") == "leaf" and "line" in c:
         leaf = common.build_leaf("c05_flatidx", ["src/common/debug_impl.cpp", "src/common/debug_messages.cpp"])
         inp = (c["line"] + "\n").encode()
         _, m, _ = common.sh([common.model_bin(PROP), "x"], input=inp)
         _, i, _ = common.sh([leaf], input=inp)
         print("line: ", c["line"]); print("model:", m.strip()); print("impl: ", i.strip()); print("spec: ", leaf_spec(c["line"]))
+        if (c.get("failing_input") or {}).get("build") == "ubsan":
+            ub = common.build_leaf(flatgen_tie.LEAF[0], flatgen_tie.LEAF[1], flatgen_tie.UBSAN_FLAGS)
+            rc, o, e = common.sh([ub], input=inp)
+            print("ubsan:", o.strip(), "rc=%d" % rc); print(e[-600:])
+            return 1 if ("runtime error" in e or rc != 0) else 0
         return 0 if m == i else 1
     impl = common.build_impl("plain")
     if c.get("kind") == "known":
